@@ -105,6 +105,8 @@ pub fn build_err_tag(s: &str) -> String {
 // ---------- CLI ----------
 pub struct CliSpec<'a> { pub container: &'a str, pub transport: &'a str, pub threads: usize, pub layout: u64 }
 
+fn bgzf_end_of(layout: u64) -> vcf::BgzfEnd { match (layout / 4) % 3 { 0 => vcf::BgzfEnd::Marker, 1 => vcf::BgzfEnd::None, _ => vcf::BgzfEnd::StoredEmpty } }
+
 pub fn container_bytes(cs: &CallSet, container: &str, layout: u64) -> Option<Vec<u8>> {
     let text = vcf::vcf_text(cs);
     let mut r = crate::rng::Rng::new(layout);
@@ -118,9 +120,10 @@ pub fn container_bytes(cs: &CallSet, container: &str, layout: u64) -> Option<Vec
     };
     match container {
         "vcf" => Some(text),
-        "vcfgz" => { let c = cuts(text.len(), &mut r); Some(vcf::bgzf(&text, &c, layout % 2 == 0)) }
+        // layouts 4..7 repeat 0..3 without the end-of-file marker block (4, 5) or with an empty stored block in its place (6, 7)
+        "vcfgz" => { let c = cuts(text.len(), &mut r); Some(vcf::bgzf_end(&text, &c, layout % 2 == 0, bgzf_end_of(layout))) }
         "rawbcf" => raw_bcf(cs, &text),
-        "bcf" => { let raw = raw_bcf(cs, &text)?; let c: Vec<usize> = if layout % 4 == 1 { (0..1 + raw.len() / 23).map(|_| r.below(raw.len().max(1) as u64) as usize).collect() } else { cuts(raw.len(), &mut r) }; Some(vcf::bgzf(&raw, &c, layout % 2 == 1)) }
+        "bcf" => { let raw = raw_bcf(cs, &text)?; let c: Vec<usize> = if layout % 4 == 1 { (0..1 + raw.len() / 23).map(|_| r.below(raw.len().max(1) as u64) as usize).collect() } else { cuts(raw.len(), &mut r) }; Some(vcf::bgzf_end(&raw, &c, layout % 2 == 1, bgzf_end_of(layout))) }
         _ => None,
     }
 }
@@ -268,7 +271,7 @@ pub fn eval_same(ctx: &Ctx, a: &[&str]) -> Option<String> {
     let precision = if a[5] == "-" { None } else { a[5].parse().ok() };
     let thorough = ctx.tier_thorough;
     let threads: &[usize] = if thorough { &[1, 2, 3, 4, 8, 16] } else { &[1, 3, 16] };
-    let layouts: &[u64] = if thorough { &[0, 1, 2, 3, 6] } else { &[1, 2] };
+    let layouts: &[u64] = if thorough { &[0, 1, 2, 3, 6, 5, 11] } else { &[1, 5, 10] };
     let repeats = if thorough { 3 } else { 2 };
     let mut first: Option<(String, String)> = None;
     let mut n = 0;
